@@ -307,6 +307,27 @@ class EstimateExtrapolationErrorNonMPI(EstimateExtrapolationErrorBase):
 
         return None
 
+    def post_run_processing(self, controller, S, **kwargs):
+        """
+        Forget the solutions and coefficients of this run. Another run on the same controller starts without history,
+        just like the first one. Otherwise, it would try to extrapolate from solutions of the previous run.
+
+        Args:
+            controller (pySDC.Controller): The controller
+            S (pySDC.Step): The current step
+
+        Returns:
+            None
+        """
+        self.prev.t = np.array([None] * self.params.n)
+        self.prev.dt = np.array([None] * self.params.n)
+        self.prev.u = [None] * self.params.n
+        self.prev.f = [None] * self.params.n
+        self.coeff.u = [None] * self.params.n
+        self.coeff.f = [0.0] * self.params.n
+
+        return None
+
     def prepare_next_block(self, controller, S, size, time, Tend, MS, **kwargs):
         """
         If the no-memory-overhead version is used, we need to delete stuff that shouldn't be available. Otherwise, we
